@@ -13,7 +13,12 @@ EXPLANATION = (
     "EVERY password, salt and round count: digests A (bit walk over len(pwd)), P (password repeated len(pwd) times, both "
     "the one-shot and the fixed-memory branch), S, and the 42-round block schedule / tail against the published "
     "recurrence C(i+1) = H((P if i odd else Ci) + (S if i%3) + (P if i%7) + (Ci if i odd else P)) by per-pair ghost "
-    "lock-step; quick tier: the two copies of the schedule and transposition tables are identical (finite)."
+    "lock-step. Quick tier: _raw_md5_crypt (md5-crypt and apr variants) is proved the same way against Kamp's published algorithm "
+    "(digest A incl. the NUL / first-character bit walk, all 1000 rounds tied to the 23x21+17 pair schedule by 500 ghost "
+    "lock-steps); bigcrypt._calc_checksum is proved to chain one crypt() segment per 8 password bytes, each salted by its "
+    "predecessor's first two characters; the transposition tables of md5/sha256/sha512-crypt (both packages) are derived from "
+    "the published output order and compared (finite). When the solvers answer unknown on an obligation of these contracts, the "
+    "contract's replay search runs the real routine against the concrete published algorithm (hashlib)."
 )
 ASSUMPTIONS = [
     "hash objects: view = bytes absorbed, update appends, digest() = H(view) with a 32..64 byte digest (hashlib contract)",
